@@ -2219,14 +2219,15 @@ impl DistributedTxCoordinator {
     ///
     /// Returns the number of locks released.
     pub fn release_orphaned_locks(&self, partition_start_ms: u64) -> usize {
-        // Atomic single critical section: identify and clean together to prevent TOCTOU races
+        // Atomic single critical section: identify and clean together to prevent TOCTOU races.
+        // Lock order is pending -> locks -> tx_locks, the order commit/abort/cleanup_timeouts use;
+        // taking `pending` last here could deadlock against them.
+        let pending = self.pending.read();
         let mut locks = self.lock_manager.locks.write();
         let mut tx_locks = self.lock_manager.tx_locks.write();
-        let pending = self.pending.read();
 
         // Snapshot active transactions while holding all locks
         let active_tx_ids: std::collections::HashSet<u64> = pending.keys().copied().collect();
-        drop(pending);
 
         // Identify orphaned locks while holding write locks
         let orphaned_keys: Vec<(String, u64)> = locks
@@ -2259,6 +2260,7 @@ impl DistributedTxCoordinator {
         // Release lock manager locks before touching wait graph
         drop(tx_locks);
         drop(locks);
+        drop(pending);
 
         // Clean up wait graph for all orphaned transactions
         for tx_id in orphaned_tx_ids {
